@@ -372,6 +372,10 @@ class ExprMixin:
             c = self.heap[c.oid]
         if isinstance(c, MDict):
             c = self.heap[c.oid]
+        if isinstance(x, SOpt) and isinstance(c, (SSetV, SMapV, SSeqV)):
+            return smt.And(smt.Not(x.isnone), self.contains(c, x.val))
+        if x is None and isinstance(c, (SSetV, SMapV, SSeqV)):
+            return smt.FALSE
         if isinstance(c, SSetV):
             return smt.SetMember(self.term_of(x), c.t)
         if isinstance(c, SMapV):
@@ -460,7 +464,48 @@ class ExprMixin:
             return self.alloc_dict(d)
         if isinstance(it, SymRange):
             return self.sym_comprehension(node, gen, sub, it, kind)
+        if isinstance(it, (MSet, SSetV)) and kind == 'set':
+            return self.set_filter_comprehension(node, gen, sub, self.set_value(it))
         return self.sym_comprehension(node, gen, sub, self.seq_value(it), kind)
+
+    def set_filter_comprehension(self, node, gen, sub, sv):
+        """{f(x) for x in S if P(x)} over a symbolic set S"""
+        if self.qctx:
+            raise Unsupported('set comprehension under a quantifier')
+        es = smt.sort_args(sv.t.sort)[1][0]
+        x = smt.fresh_bound('x', es)
+        self.assign(gen.target, self.value_of_sort(x, sv.ety), sub)
+        self.pure += 1
+        self.qctx.append(([x], smt.SetMember(x, sv.t)))
+        try:
+            conds = [self.truth(self.eval(c, sub)) for c in gen.ifs]
+            e = self.eval(node.elt, sub)
+        except NeedFork:
+            raise Unsupported('set comprehension body needs a decision (line %d)' % node.lineno)
+        finally:
+            self.pure -= 1
+            self.qctx.pop()
+        flt = smt.And(*conds)
+        ety = self.type_of_value(e)
+        rs = type_sort(ety, self.env.classes)
+        et = self.term_of(e)
+        ph = smt.Var('@phx', es)
+        mkey = ('setfilter', sv.t.key(), smt.subst(et, {x.key(): ph}).key(), smt.subst(flt, {x.key(): ph}).key())
+        memo = self.ghost.setdefault('@memo', {})
+        if mkey in memo:
+            return self.alloc_set(SSetV(memo[mkey], ety))
+        r = self.fresh_term('scomp@%d' % node.lineno, smt.SetS(rs), False)
+        memo[mkey] = r
+        if et.key() == x.key():
+            # pure filter: a set-builder term, no axiom needed
+            memo[mkey] = smt.SetFilter(sv.t, x, flt)
+            return self.alloc_set(SSetV(memo[mkey], ety))
+        else:
+            y = smt.fresh_bound('y', rs)
+            self.assume(smt.ForAll([x], smt.Implies(smt.And(smt.SetMember(x, sv.t), flt), smt.SetMember(et, r))))
+            self.assume(smt.ForAll([y], smt.Implies(smt.SetMember(y, r), smt.Exists(
+                [x], smt.And(smt.SetMember(x, sv.t), flt, smt.Eq(et, y))))))
+        return self.alloc_set(SSetV(r, ety))
 
     def quantified(self, comp, fr, is_all):
         """any(...)/all(...) over a symbolic collection: a quantified formula, no
@@ -469,6 +514,8 @@ class ExprMixin:
             return None
         gen = comp.generators[0]
         it = self.eval(gen.iter, fr)
+        if isinstance(it, (MSet, SSetV)):
+            return self.quantified_set(comp, gen, fr, self.set_value(it), is_all)
         if isinstance(it, SymRange):
             sv = it
         else:
@@ -498,6 +545,28 @@ class ExprMixin:
         if is_all:
             return self.as_bool_value(smt.ForAll([i], smt.Implies(guard, body)))
         return self.as_bool_value(smt.Exists([i], smt.And(guard, body)))
+
+    def quantified_set(self, comp, gen, fr, sv, is_all):
+        """all/any over the elements of a symbolic set, as set-builder (in)equalities"""
+        es = smt.sort_args(sv.t.sort)[1][0]
+        x = smt.fresh_bound('x', es)
+        sub = Frame({}, fr.globals, fr, fr.fn, fr.qualname)
+        self.assign(gen.target, self.value_of_sort(x, sv.ety), sub)
+        self.pure += 1
+        self.qctx.append(([x], smt.SetMember(x, sv.t)))
+        try:
+            conds = [self.truth(self.eval(c, sub)) for c in gen.ifs]
+            body = self.truth(self.eval(comp.elt, sub))
+        except NeedFork:
+            raise Unsupported('body of any()/all() over a set needs a decision')
+        finally:
+            self.pure -= 1
+            self.qctx.pop()
+        if is_all:
+            good = smt.Implies(smt.And(*conds), body)
+            return self.as_bool_value(smt.Eq(smt.SetFilter(sv.t, x, smt.Not(good)), smt.SetEmpty(es)))
+        hit = smt.And(*(conds + [body]))
+        return self.as_bool_value(smt.Not(smt.Eq(smt.SetFilter(sv.t, x, hit), smt.SetEmpty(es))))
 
     def sym_comprehension(self, node, gen, sub, sv, kind):
         if self.qctx:
@@ -557,7 +626,20 @@ class ExprMixin:
         if kind == 'set':
             ety = self.type_of_value(e)
             es = type_sort(ety, self.env.classes)
+            ph = smt.Var('@ph', INT)
+            mkey = ('setcomp', (sv.t.key() if not isinstance(sv, SymRange) else (sv.lo.key(), sv.hi.key())),
+                    smt.subst(self.term_of(e), {i.key(): ph}).key(), smt.subst(flt, {i.key(): ph}).key())
+            memo = self.ghost.setdefault('@memo', {})
+            if mkey in memo:
+                return self.alloc_set(SSetV(memo[mkey], ety))
+            if not isinstance(sv, SymRange) and sv.t.op == 'var' and sv.t.data in self.env.abstract_sets \
+                    and not conds:
+                # the collection is only ever used as a set: an arbitrary finite set (no seq axioms)
+                r = self.fresh_term('set(%s)' % sv.t.data, smt.SetS(es), True)
+                memo[mkey] = r
+                return self.alloc_set(SSetV(r, ety))
             r = self.fresh_term('comp@%d' % node.lineno, smt.SetS(es), False)
+            memo[mkey] = r
             self.assume(smt.ForAll([i], smt.Implies(smt.And(rng, flt), smt.SetMember(self.term_of(e), r))))
             x = smt.fresh_bound('x', es)
             self.assume(smt.ForAll([x], smt.Implies(
@@ -599,6 +681,10 @@ class ExprMixin:
             r = self.quantified(node.args[0], fr, f is _bi.all)
             if r is not None:
                 return r
+        if f is _bi.set and len(node.args) == 1 and not node.keywords and \
+                isinstance(node.args[0], ast.GeneratorExp):
+            # set(<generator>) is a set comprehension
+            return self.comprehension(node.args[0], fr, 'set')
         args = []
         for a in node.args:
             if isinstance(a, ast.Starred):
